@@ -498,7 +498,35 @@ func c01EnumDeep(size, shard, nshards int, emit func(c01Case)) {
 	}
 }
 
+// c01EnumLong: texts around and beyond the size of the largest event (65536 bytes) - padded with
+// white space, a long string or a long array - holding one number of each kind. The rules know no size:
+// an offending number is refused by the enforced variant however long the text is.
+func c01EnumLong(size, shard, nshards int, emit func(c01Case)) {
+	idx := 0
+	for _, n := range []int{65530, 65536, 65537, 66000, 140000} {
+		for _, pad := range []string{"space", "string", "array"} {
+			for _, leaf := range []string{"1", "-0", "1.5", "1e3", "9007199254740992"} {
+				idx++
+				if (idx-1)%nshards != shard {
+					continue
+				}
+				var text string
+				switch pad {
+				case "space":
+					text = `{"n":` + leaf + `,` + strings.Repeat(" ", n) + `"a":[1,2]}`
+				case "string":
+					text = `{"n":` + leaf + `,"a":"` + strings.Repeat("x", n) + `"}`
+				default:
+					text = `{"n":` + leaf + `,"a":[` + strings.Repeat("7,", n/2) + `7]}`
+				}
+				emit(c01Case{Text: vfBytes(text), Versions: []string{"5", "6", "10", "12", "org.matrix.msc4014"}})
+			}
+		}
+	}
+}
+
 func init() {
+	vfEnum("C01/long-texts", "every case: a text of 65 530 ... 140 000 bytes (white space / one long string / one long array) with one number of each kind, plain and enforced variants; distinct = distinct Case JSON", 1, 1, 4, c01EnumLong, c01Check)
 	rule := "non-trivial = valid text whose bytes differ from its canonical form (unsorted keys, alternative escape spelling, whitespace, -0) or that contains a fraction/exponent/out-of-range number or that comes with a second presentation; or an invalid text within two byte edits of a valid one (must be rejected; the enumerated invalid texts are judged but not counted as non-trivial). distinct = distinct Case JSON."
 	vfRapid("C01/values", rule, 3000, 100000, 16, c01GenValue, c01Check)
 	vfRapid("C01/mutated", rule, 3000, 100000, 16, c01GenMutated, c01Check)
